@@ -134,6 +134,9 @@ def intEngine (f : String) (args : List String) : String :=
     | "div_floor", [a, b] => showR (LB.divFloor a b)
     | "div_ceil", [a, b] => showR (LB.divCeil a b)
     | "pow", [a, b] => showR (LB.pow a b)
+    | "bitand", [a, b] => showLB (LB.bitand a b)
+    | "bitor", [a, b] => showLB (LB.bitor a b)
+    | "bitxor", [a, b] => showLB (LB.bitxor a b)
     | "abs", [a] => showR (LB.abs a)
     | "signum", [a] => showLB (LB.signum a)
     | "is_zero", [a] => toString (LB.isZero a)
@@ -151,6 +154,9 @@ def intEngine (f : String) (args : List String) : String :=
     | "b.sub", [a, b] => showXR (IntB.sub a b)
     | "b.mul", [a, b] => showXR (IntB.mul a b)
     | "b.neg", [a] => showXR (IntB.neg a)
+    | "b.bit_and", [a, b] => showXR (IntB.bitAnd a b)
+    | "b.bit_or", [a, b] => showXR (IntB.bitOr a b)
+    | "b.bit_xor", [a, b] => showXR (IntB.bitXor a b)
     | "b.mod", [a, b] => showXR (IntB.mod a b)
     | "b.div_floor", [a, b] => showXR (IntB.divFloor a b)
     | "b.div_ceil", [a, b] => showXR (IntB.divCeil a b)
